@@ -357,18 +357,21 @@ class Thread(BaseThread):
                             sys.stderr.write(f"ERROR in thread: {self.name}  {cause}\n")
                 finally:
                     with self.child_locker:
-                        children, self.children = list(self.children), []
+                        children = list(self.children)
                     try:
                         for c in children:
                             DEBUG and logger.note(f"Stopping thread {c.name}\n")
                             c.stop()
 
+                        # CHILDREN STAY REGISTERED UNTIL THEY ARE JOINED (join() UNREGISTERS THEM), SO A CONCURRENT stop() STILL REACHES THEM
                         join_all_threads(children)
                         del self.target, self.args, self.kwargs
                         DEBUG and logger.note("thread {name|quote} stopping", name=self.name)
                     except Exception as cause:
                         DEBUG and logger.warning("problem with thread {name|quote}", cause=cause, name=self.name)
                     finally:
+                        with self.child_locker:
+                            self.children = []
                         DEBUG and logger.note("thread {name|quote} remove from ALL", name=self.name)
                         with ALL_LOCK:
                             if ident in ALL:
